@@ -1,7 +1,7 @@
 import Mathlib.Algebra.Order.Field.Rat
 import TapkeeVerif.Proofs.TsneBasic
 import TapkeeVerif.Proofs.TsneVp
-import TapkeeVerif.Proofs.TsneCsrVal
+import TapkeeVerif.Proofs.TsneCsrTotal
 import TapkeeVerif.Model.TsneRun
 import TapkeeVerif.Proofs.QuadTreeForces
 /-!
@@ -103,10 +103,48 @@ theorem symmetrizeCsr_symm {K : Type} [Field K] (N : Nat) (c : Csr K) (hw : c.we
     out.entry n m = out.entry m n := by
   rw [out_half_sum N c hw hd out hout n m hn hm, out_half_sum N c hw hd out hout m n hm hn, add_comm]
 
-/- `symmetrizeCsr_total` (Σ out.valP = Σ c.valP, hence the normalised matrix sums to one): follows from the half-sum
-   formula by summing over all `(n, m)`; the summation over the flat arrays is not carried out in Lean (the check
-   compares the totals exactly on every generated case).  The small-pattern statements below are kept as non-vacuity
-   examples of the hypotheses and as a regression net for the array plumbing. -/
+/-- the result is a well-formed CSR matrix again (row pointers monotone from 0 to the array size, columns below `N`) -/
+theorem symmetrizeCsr_wellformed {K : Type} [Field K] (N : Nat) (c : Csr K) (hw : c.wellFormed N = true)
+    (hd : DistinctCols N c) (out : Csr K) (hout : symmetrizeCsr N c = .ok out) : WFc N out :=
+  wfc_out N c hw hd out hout
+
+/-- **total preserved**: `Σ sym_val_P = Σ val_P` (in a field where `2 ≠ 0`; the divisor is the regenerated one, so a
+    source that halves by anything but 2 breaks this proof) -/
+theorem symmetrizeCsr_total {K : Type} [Field K] (h2 : (2 : K) ≠ 0) (N : Nat) (c : Csr K)
+    (hw : c.wellFormed N = true) (hd : DistinctCols N c) (out : Csr K) (hout : symmetrizeCsr N c = .ok out) :
+    out.valP.foldl (· + ·) 0 = c.valP.foldl (· + ·) 0 := by
+  rw [out_total N c hw hd out hout]
+  have : ((Gen.TsneOps.symDivisor : Nat) : K) = 2 := by
+    have : Gen.TsneOps.symDivisor = 2 := by decide
+    rw [this]; norm_num
+  rw [this]
+  field_simp
+  ring
+
+/-- **the joint distribution of the Barnes–Hut branch of `run`** (`symmetrizeMatrix`, then `val_P /= Σ val_P`, both as
+    the translator found them in `run`): for every well-formed K-NN similarity matrix with non-zero total the stage
+    returns; the result sums to one, is symmetric, and its entry `(n, m)` is `(p_nm + p_mn) / (2 Σ p)` -/
+theorem run_joint_csr {K : Type} [Field K] (h2 : (2 : K) ≠ 0) (N : Nat) (c : Csr K) (hw : c.wellFormed N = true)
+    (hd : DistinctCols N c) (hs : c.valP.foldl (· + ·) 0 ≠ 0) :
+    ∃ J, jointCsrAsWritten N c = .ok J ∧ J.valP.foldl (· + ·) 0 = 1 ∧
+      (∀ n < N, ∀ m < N, J.entry n m = J.entry m n) ∧
+      ∀ n < N, ∀ m < N, J.entry n m = (c.entry n m + c.entry m n) / (2 * c.valP.foldl (· + ·) 0) := by
+  obtain ⟨out, hout⟩ := symmetrizeCsr_inbounds N c hw hd
+  have ht := symmetrizeCsr_total h2 N c hw hd out hout
+  have hn : Gen.TsneRun.sparseNormalise = true := by decide
+  refine ⟨out.normalise, ?_, ?_, ?_, ?_⟩
+  · unfold jointCsrAsWritten; rw [hout]; simp only [hn, if_true]
+  · exact normalise_total out (by rw [ht]; exact hs)
+  · intro n hn' m hm
+    rw [normalise_entry, normalise_entry, symmetrizeCsr_symm N c hw hd out hout n m hn' hm]
+  · intro n hn' m hm
+    have hd2 : ((Gen.TsneOps.symDivisor : Nat) : K) = 2 := by
+      have : Gen.TsneOps.symDivisor = 2 := by decide
+      rw [this]; norm_num
+    rw [normalise_entry, ht, symmetrizeCsr_half_sum N c hw hd out hout n m hn' hm, hd2, div_div]
+
+/- The small-pattern statements below are kept as non-vacuity examples of the hypotheses and as a regression net for the
+   array plumbing. -/
 
 /-- the CSR matrix with sparsity pattern `mask` (bit `n*N+m` ⇔ entry `(n, m)` present), `k`-th stored value `2^k` -/
 def patternCsr (N mask : Nat) : Csr Rat :=
@@ -131,6 +169,9 @@ example : DistinctCols 3 (patternCsr 3 0b100100010) := by
   intro n hn
   have : n = 0 ∨ n = 1 ∨ n = 2 := by omega
   rcases this with rfl | rfl | rfl <;> decide +kernel
+
+example : (patternCsr 3 0b100100010).valP.foldl (· + ·) 0 ≠ 0 := by decide +kernel
+example : (2 : Rat) ≠ 0 := by decide
 
 /-- in bounds, every cell written, symmetric, halves of the pair sums, total preserved — all patterns up to 2 × 2 -/
 theorem symmetrizeCsr_small_partial : ∀ N < 3, ∀ mask < 2 ^ (N * N), symChecks N mask = true := by
